@@ -7,6 +7,7 @@ def _codec_runs(tier, seed, replay):
 OPLOG_BRIDGE = ["HC.Bridge.Oplog.sizes", "HC.Bridge.Oplog.initial_bits", "HC.Bridge.Oplog.next_slot",
                 "HC.Bridge.Oplog.current_bit", "HC.Bridge.Oplog.leader_masks", "HC.Bridge.Oplog.entry_flags",
                 "HC.Bridge.Oplog.header_layout"]
+ORDER_BRIDGE = ["HC.Bridge.Order.step_orders", "HC.Bridge.Order.model_flush_order", "HC.Bridge.Order.model_apply_order", "HC.Bridge.Order.model_append_order"]
 STORES_BRIDGE = ["HC.Bridge.Stores.tree_nodes", "HC.Bridge.Stores.bitfield_pages", "HC.Bridge.Stores.hash_scheme",
                  "HC.Bridge.Stores.flush_cadence"]
 LOG_TRUSTED = ["dependency crates are modelled, not verified: flat-tree (ported), compact-encoding, random-access-* (flat file model), crc32fast/blake2/ed25519-dalek (re-implemented in Lean; compared byte-for-byte incl. signatures)",
@@ -164,7 +165,7 @@ PROPS = {
     "C10": dict(
         theorems=["HC.C10.fault_is_crash", "HC.C10.fault_prefix_step", "HC.C10.fault_before_any", "HC.C10.no_fault_complete", "HC.C10.fault_recovers", "HC.C10.replica_fault_recovers",
                   "HC.C02.reopen_exact", "HC.C02.flush_atomic"],
-        bridge_modules=["HC.Bridge.Oplog"], bridging=OPLOG_BRIDGE,
+        bridge_modules=["HC.Bridge.Oplog", "HC.Bridge.Order"], bridging=OPLOG_BRIDGE + ORDER_BRIDGE,
         runs=_c10_runs,
         partial="the reduction 'fault at k = crash before k' is proved on the model's journals and inherits C02's theorems: for a writer core after any history, a fault at any storage operation of an append_batch/clear/read leaves stores that reopen to the log before or after the call (fault_recovers), and for a replica reached from creation by honest exchanges, reopens and crashes a fault at any storage operation of an honest proof application leaves stores that reopen to the replica before or after the application with the invariants re-established (replica_fault_recovers); that the Rust stops at the failing operation and maps the error (glue) is checked by injecting one error at every storage operation of every call",
         rule="for every call of every history (appends, batches, clears, make_read_only, reads, reopen; and, on a replica, every application of an honest proof - upgrade, block, block + upgrade, in random request order with growth rounds) and every index k of a storage operation it issues (write, delete, truncate, read, length query): the history prefix is replayed on a fresh instance, operation k fails with an I/O error; the call must return an error (not ok, no panic, no hang); drop + reopen must show exactly the state of the crash point with the same number of completed mutating operations (those crash states are compared with the Lean model and with the before/after oracle)",
@@ -200,7 +201,7 @@ PROPS = {
     ),
     "C03": dict(
         theorems=["HC.C03.accept_commits", "HC.C03.accepted_events", "HC.C03.honest_block_accepted", "HC.C03.honest_first_upgrade_accepted", "HC.C03.sync_first_contact", "HC.C03.sync_invariant", "HC.C03.sync_progress", "HC.C03.replica_converges", "HC.C03.replica_grows", "HC.C03.replica_reopens", "HC.C03.cleared_block_no_proof", "HC.C03.created_block_value", "HC.C03.honest_growth_is_writers", "HC.C03.honest_hash_is_writers", "HC.C03.honest_block_is_writers", "HC.C03.missing_nodes_spec", "HC.C03.writer_answers", "HC.C03.block_accepted"],
-        bridge_modules=["HC.Bridge.Oplog", "HC.Bridge.Stores"], bridging=OPLOG_BRIDGE + STORES_BRIDGE,
+        bridge_modules=["HC.Bridge.Oplog", "HC.Bridge.Stores", "HC.Bridge.Order"], bridging=OPLOG_BRIDGE + STORES_BRIDGE + ORDER_BRIDGE,
         runs=_c03_runs,
         partial="proved: honest block exchange (the replica's missing_nodes count, the writer's create_valueless_proof, the block bytes) is accepted by verify_proof on every sparse replica of the log, for every log/writer state/replica state/index; the first-contact upgrade (the writer's answer to 'upgrade from 0 to your length' = its reference roots + signature, accepted by a replica that knows nothing yet, which adopts exactly the writer's roots, length and fork: honest_first_upgrade_accepted); the exchange is closed under its own effects at tree level (sync_first_contact, sync_invariant, sync_progress: after first contact and any number of block exchanges in any order, each answered by create_valueless_proof, checked by verify_proof and committed, the replica is again a sparse replica at the writer's length with the writer's roots and fork, and the exchange for every block succeeds again - it never gets stuck); at CORE level (replica_converges): from a replica that knows nothing, the writer's upgrade answer and then its block answers for any list of indices in any order with repetitions are each applied by verify_and_apply_proof with answer true - verification, byte offset under the replica's own sparse tree, data write, oplog entry, bitfield, tree commit, periodic flush - and afterwards the replica reports the writer's length and byte length, every fetched block reads back byte-identical to the writer's block and every other index reads as not held (invariant Replica.RepR with a closed sparse tree); the same with GROWTH ROUNDS (replica_grows): after first contact at any length the replica plays any list of acts - upgrade to the writer's current, larger length (the answer is the greedy decomposition of [m,n) into aligned blocks; inside the first new root verify_upgrade's grow loop merges upwards like a binary counter) fetch block i below its current length, and ask for the hash of any full tree node inside its current length, in any order - every act is answered true and at the end it reports the last length and byte length and serves exactly the fetched blocks byte-identical; once verified and commitable a proof is always applied, with exactly the prescribed events. ACROSS RESTARTS, from creation (replica_reopens): the replica is created by Hypercore::new over empty stores from the public key alone, and among the acts the stores may be closed and reopened (Hypercore::new without key pair) any number of times - every reopen succeeds without writing, replays the oplog entries since the last flush to exactly the live header, tree and bitfield (ghost invariant ReplicaReopen.PersistR next to RepRAt; truncate finds the upgraded roots among the entry's nodes and the store), and the final statement is the same. The proofs used are the writer's own answers (honest_block_is_writers, honest_hash_is_writers, honest_growth_is_writers). Not proved (validated by the run): proofs with seek sections, upgrades to less than the writer's length (additional nodes), block+upgrade in one proof, crashes of a replica in mid-application (see C02) - a block the writer does not hold (cleared) yields no proof, never a wrong one, and a created block proof carries exactly what get returns (cleared_block_no_proof, created_block_value) - every honest proof in every request order, partial upgrades, seeks, hash sweeps, replica reopen, cleared blocks must be accepted by crate and model and the replica must converge",
         rule="writer histories (appends, batches, clears, reopen) x replica request orders {block i with nodes from missing_nodes, hash of a tree node, seek, upgrade to any length in (replica, writer]} incl. partial upgrades with additional nodes, several growth rounds, replica reopen; create_proof output (every node, size, hash, signature), acceptance, journals and probes compared with the Lean model; oracle: accepted, replica bytes = writer bytes, length = writer's length at the upgrade. distinct = distinct transcripts",
@@ -226,7 +227,7 @@ PROPS = {
     "C01": dict(
         theorems=["HC.C01.live_refinement", "HC.C01.step_refines", "HC.C01.created", "HC.C01.created_refines", "HC.C01.full_refinement", "HC.C01.full_refinement_from", "HC.C01.history_invariants", "HC.C01.history_then_reopen", "HC.C01.reopen_then_continue",
                   "HC.C01.entry_reopen", "HC.C01.header_reopen", "HC.C01.frame_reopen", "HC.C01.held_after", "HC.C01.refines_partial"],
-        bridge_modules=["HC.Bridge.Oplog", "HC.Bridge.Stores"], bridging=OPLOG_BRIDGE + STORES_BRIDGE,
+        bridge_modules=["HC.Bridge.Oplog", "HC.Bridge.Stores", "HC.Bridge.Order"], bridging=OPLOG_BRIDGE + STORES_BRIDGE + ORDER_BRIDGE,
         runs=_c01_runs,
         partial="proved on the model in full (full_refinement): for every history of append_batch/clear/get/has/info/make_read_only calls and close-and-reopen steps from a freshly created core, every observation equals the abstract block list + held set; the flush cadence, the oplog commit protocol and its byte layout, the flushed tree/bitfield stores and the replay on open are all inside the theorem. Hypotheses: 32-byte non-zero digests, 64-byte signatures, 32-byte key and seed, fewer than 2^62 blocks, batches below 2^20 blocks, clear bounds below 2^64. What ties the model to the Rust is the correspondence run (the label partial refers to that tie and to the hypotheses, not to an unproved part of the statement)",
         rule="histories over {append, batch 0..5, clear(start<end,start<len,end maybe beyond), get/has of any u64, info, reopen, probe}: bounded-exhaustive over a 10-symbol alphabet (full probe after each step), seeded-random long ones (blocks 0 B..70 KB), large cores crossing 8192/32768/65536; every observation and every storage operation (store, offset, bytes) is compared with the Lean model and with the harness's own list model. distinct = distinct full transcripts; non-trivial = at least 3 operations",
@@ -237,7 +238,7 @@ PROPS = {
         theorems=["HC.C02.crash_refinement", "HC.C02.crash_refinement_from", "HC.C02.crash_atomic", "HC.C02.crash_then_continue", "HC.C02.acknowledged_stays", "HC.C02.history_invariants_reopen",
                   "HC.C02.reopen_exact", "HC.C02.append_commit", "HC.C02.flush_atomic", "HC.C02.fresh", "HC.C02.reachable", "HC.C02.crash_atomic_partial",
                   "HC.C02.replica_crash_atomic", "HC.C02.replica_first_crash_atomic", "HC.C02.replica_survives_crashes"],
-        bridge_modules=["HC.Bridge.Oplog", "HC.Bridge.Stores"], bridging=OPLOG_BRIDGE + STORES_BRIDGE,
+        bridge_modules=["HC.Bridge.Oplog", "HC.Bridge.Stores", "HC.Bridge.Order"], bridging=OPLOG_BRIDGE + STORES_BRIDGE + ORDER_BRIDGE,
         runs=_c02_runs,
         partial="proved on the model (crash_atomic): after any history of calls and reopen steps of a writer core, for any further append_batch/clear/make_read_only/read and ANY prefix of its storage operations, Hypercore::new on the stores succeeds and the recovered core represents the log before the call or the log after it (length, byte length, has, get, exact contiguous length, writability), stays usable (crash_then_continue), and acknowledged calls stay applied (acknowledged_stays); crash points inside a flush (bitfield pages / tree nodes partly written, header written but entries not yet truncated) are inside the theorem. crash_refinement: histories in which calls complete, the store is closed and reopened, or the process dies after any number of storage operations of a call and the store is reopened, any number of times in any order, are observationally the abstract log in which each crash leaves the log before or after the interrupted call (recovery re-establishes the ghost invariant; Oplog::open cuts off stale entries - repo fix a6a0579). PROOF APPLICATIONS ON A REPLICA (replica_crash_atomic, replica_survives_crashes): for every replica state reached from creation (public key only) by first contact, honest upgrade/block/hash exchanges, close/reopen steps and earlier crashes (first contact included: replica_first_crash_atomic), every honest act and ANY prefix of the storage operations of its application (data write, oplog entry, and when the periodic flush is due bitfield pages, tree nodes, header, truncation), Hypercore::new succeeds and the replica shows exactly the state before the application or the state after it (length, byte length, has, get of every index, exact contiguous length) and satisfies the invariants again, so crashes can repeat without bound - the data write precedes the entry (a held bit never lacks its bytes), a bitfield store ahead of the header is tolerated because the replica's entries only set bits and the replayed hint is never stuck on a held bit (bitRun_exact), a tree store ahead of the header only gained reference nodes (replay_ext). Not proved (validated by reopening every journal prefix on the real crate and on the model, including repeated crashes): proofs that carry block+upgrade together, replica-side clears; same hypotheses as C01.full_refinement.",
         rule="for every history, after every mutating call, the storage is rebuilt from every prefix of that call's journal of write/delete/truncate operations, reopened with open(true), probed, and compared with the list model's before and after states and with the Lean model's prediction; some recovered cores are continued, and 'double' histories crash again inside the next call (make_read_only, append, batch, clear) on the recovered core, preferring the windows inside a flush. distinct = distinct transcripts",
@@ -245,7 +246,7 @@ PROPS = {
     ),
     "C07": dict(
         theorems=["HC.C07.torn_atomic", "HC.C07.torn_atomic_from", "HC.C07.torn_then_continue", "HC.C07.torn_entry_ignored", "HC.C07.readEntries_stops", "HC.C07.torn_header_falls_back", "HC.C07.replica_torn_commit_point_partial", "HC.C07.replica_torn_header"],
-        bridge_modules=["HC.Bridge.Oplog"], bridging=OPLOG_BRIDGE,
+        bridge_modules=["HC.Bridge.Oplog", "HC.Bridge.Order"], bridging=OPLOG_BRIDGE + ORDER_BRIDGE,
         runs=_c07_runs,
         partial="proved on the model (torn_atomic): after any history of calls and reopen steps of a writer core, for any further append_batch/clear/make_read_only/read, any storage operation k of it and any number t of bytes of that write that arrive, Hypercore::new succeeds and the recovered core represents the log before or after the call and stays usable; torn data, bitfield-page, tree-node and log-entry writes need no assumption, a torn header write assumes that the checksum rejects the half-written slot (CrcDetects, evaluated by the harness on every torn state it generates). On a replica (replica_torn_commit_point_partial): a torn write of the block's bytes or of the oplog entry of any honest proof application recovers to exactly the state before the application (the entry write is the commit point; no checksum assumption); a torn header write of the replica's periodic flush (all pages and nodes written; CrcDetects assumed) recovers to the state after the application (replica_torn_header). Not proved (run only): torn page and node writes inside the periodic flush of a replica (the stores then stop being whole pages / whole slots until rewritten); a second crash after recovery from a torn bitfield page (the store's size is then not a multiple of the page size until the page is rewritten).",
         rule="as C02, and for every crash point whose next operation is a write: every proper byte prefix (writes <= 64 bytes) or cuts at 1,3,4,5,7,8,9,12, half, last byte, every 512 bytes and 4 seeded cuts",
